@@ -29,6 +29,46 @@ RULES = [
  ("x/rvesting/module/module.go", "(AppModule).InitGenesis", "time", "time.Now", "class:telemetry-only", "argument of telemetry.MeasureSince"),
  ("x/xibc/clients/light-clients/*/types/hashing.go", "<pkginit>", "sync", "sync.Pool", "class:hasher-pool",
   "pool of keccak states; every user calls Reset() before writing, the digest does not depend on which instance is reused"),
+
+ # ---- holders: package-level variables of mutable type (kind process-state-holder). A NEW one is a finding by itself. ----
+ ("x/xibc/testing/*", "*", "process-state*", "*", "class:test-support-only", "package xibctesting is imported by tests only"),
+ ("app/test_helpers.go", "<pkginit>", "process-state-holder", "*", "class:test-support-only", "test helper (non _test file): consensus params handed to InitChain by tests"),
+ ("*", "<pkginit>", "process-state-holder", "var * []byte*", "class:constant-table",
+  "byte-string constant (store key prefix, parameter key, embedded contract JSON): Go has no []byte constants; never index-assigned or reassigned (such a write would be a process-state site of its own)"),
+ ("*", "<pkginit>", "process-state-holder", "var * *big.Int*", "class:constant-table",
+  "numeric constant used as read-only operand; every mutating big.Int method on it would be a process-state site of its own"),
+ ("syscontracts/*", "<pkginit>", "process-state-holder", "var * types.CompiledContract*", "class:constant-table", "compiled system contract (ABI + byte code) unmarshalled from the embedded JSON in init(); read afterwards"),
+ ("syscontracts/*/generated.go", "<pkginit>", "process-state-holder", "var *FuncSigs map*", "class:constant-table", "abigen table of function signatures, never written"),
+ ("syscontracts/*/generated.go", "<pkginit>", "process-state-holder", "var *MetaData [*]bind.MetaData*", "class:deterministic-memo",
+  "abigen MetaData: GetAbi() parses the constant ABI string once under a mutex and memoises it; the memo is a function of the constant, the only caller in the module is the unreachable Deploy… binding"),
+ ("syscontracts/*/generated.go", "Deploy*", "process-state", "var *MetaData method:GetAbi", "class:abigen-binding-unreachable", "abigen deployment helper for RPC clients"),
+ ("x/xibc/core/packet/types/evm.go", "<pkginit>", "process-state-holder", "var Tuple* abi.Type*", "class:startup-configuration", "ABI tuple types built once by init(); read afterwards"),
+ ("*", "<pkginit>", "process-state-holder", "var * func(*", "class:constant-table", "function value bound at declaration (identifier validators); never reassigned"),
+ ("*", "<pkginit>", "process-state-holder", "var *Cdc [*]codec.ProtoCodec*", "class:startup-configuration", "module codec: interfaces are registered in init() / at app construction, (un)marshalling does not change it"),
+ ("app/app.go", "<pkginit>", "process-state-holder", "var ModuleBasics*", "class:startup-configuration", "table of module basics built at declaration; read for genesis defaults, codec and API route registration"),
+ ("app/app.go", "<pkginit>", "process-state-holder", "var *", "class:constant-table", "maccPerms / allowedReceivingModAcc / keys: tables built at declaration and only read (membership, copies: see the automatic map-range class)"),
+ ("types/coin.go", "<pkginit>", "process-state-holder", "var PowerReduction*", "class:constant-table", "sdk.Int constant (wraps *big.Int), assigned to sdk.DefaultPowerReduction in init(); read-only operand afterwards"),
+ ("x/xibc/clients/light-clients/*/types/hashing.go", "<pkginit>", "process-state-holder", "var hasherPool*", "class:hasher-pool", "see rlpHash"),
+ ("x/xibc/clients/light-clients/*/types/hashing.go", "rlpHash", "process-state", "var hasherPool method:*", "class:hasher-pool",
+  "sync.Pool of keccak states: every user calls Reset() before writing, the digest does not depend on which instance is reused"),
+ (ETH+"ethash.go", "<pkginit>", "process-state-holder", "var sharedEthash*", "class:vendored-ethash-per-call-instance",
+  "shared instance created by init(); it is attached to an Ethash only when Config.PowMode == ModeShared, VerifyCascadingFields constructs Config{} (ModeNormal): never consulted"),
+ (ETH+"ethash.go", "<pkginit>", "process-state-holder", "var dumpMagic*", "class:constant-table", "magic number of the on-disk cache format (disk cache disabled)"),
+ ("x/xibc/core/client/types/genesis.go", "<pkginit>", "process-state-holder", "var defaultGenesis*", "class:startup-configuration", "default genesis, see SetDefaultGenesisState"),
+ ("x/xibc/core/commitment/types/merkle.go", "<pkginit>", "process-state-holder", "var *", "class:constant-table", "blank proofs used as zero-value comparands and the ICS-23 proof specs: read only"),
+ # ---- method calls on resident fields / globals of dependency types ----
+ ("app/app.go", "(*Teleport).GetSubspace", "process-state", "*", "class:cli-or-query-only", "test / simulation accessor of a params subspace"),
+ ("app/app.go", "(*Teleport).Register*", "process-state", "*", "class:startup-wiring", "API / gRPC route registration at node start (server package), not block processing"),
+ ("app/upgrades.go", "(*Teleport).registerUpgradeHandlers", "process-state", "*", "class:startup-wiring", "called once from NewTeleport: installs upgrade handlers and store loaders before the first block"),
+ ("app/export.go", "(*Teleport).prepForZeroHeightGenesis", "process-state", "*", "class:cli-or-query-only", "state export command; DistrKeeper.Hooks() returns a value wrapper"),
+ ("x/aggregate/keeper/mint.go", "(Keeper).MintingEnabled", "process-state", "(Keeper).bankKeeper method:BlockedAddr", "class:read-only-lookup",
+  "cosmos-sdk bank BaseKeeper.BlockedAddr: membership test in the blocked-address table fixed at construction"),
+ ("x/rvesting/keeper/*", "*", "process-state", "(Keeper).accountKeeper method:GetModuleAddress", "class:read-only-lookup",
+  "cosmos-sdk auth AccountKeeper.GetModuleAddress: lookup in the module-permission table fixed at construction"),
+ (ETH+"ethash.go", "(*lru).get", "process-state", "*", "class:vendored-ethash-per-call-instance",
+  "the lru of verification caches belongs to an Ethash that VerifyCascadingFields creates for one header and closes; its content is a function of the epoch"),
+ (ETH+"ethash.go", "(*Ethash).Close", "process-state", "*", "class:vendored-ethash-per-call-instance", "closes the per-call instance (sync.Once on its own field)"),
+ (ETH+"ethash.go", "(*Ethash).Threads", "process-state", "*", "class:vendored-ethash-mining-unreachable", "mining API, no caller in the module"),
  # ---- process-local mutable state (kind process-state): every write outside constructors must be justified here ----
  ("x/aggregate/keeper/keeper.go", "(*Keeper).SetICS4Wrapper", "process-state", "(Keeper).ics4Wrapper assign", "class:startup-wiring",
   "wiring setter called once from app.NewTeleport (the IBC channel keeper is created after the aggregate keeper); no caller in block processing (checked by the call graph in the thorough tier)"),
@@ -56,6 +96,10 @@ RULES = [
  (ETH+"sealer.go", "startRemoteSealer", "go", "s.loop", "class:vendored-ethash-sealer-loop-idle",
   "New() starts the remote-sealer loop, Close() stops it; during a verification it receives nothing and touches only its own fields"),
  (ETH+"sealer.go", "(*remoteSealer).loop", "*", "*", "class:vendored-ethash-sealer-loop-idle", "see startRemoteSealer: idle loop, own fields only"),
+ (ETH+"sealer.go", "(*remoteSealer).makeWork", "*", "*", "class:vendored-ethash-sealer-loop-idle",
+  "called by the loop only when a work package arrives on workCh; nobody sends one during a verification; writes the per-instance sealer's own fields"),
+ (ETH+"sealer.go", "(*remoteSealer).sendNotification", "*", "*", "class:vendored-ethash-sealer-loop-idle",
+  "started by notifyWork (see there); never during a verification"),
  (ETH+"sealer.go", "(*remoteSealer).notifyWork", "*", "*", "class:vendored-ethash-sealer-loop-idle",
   "called by the loop only when a work package arrives on workCh; nobody sends one during a verification (found by the call-graph refinement: statically reachable from New)"),
  (ETH+"sealer.go", "(*remoteSealer).submitWork", "*", "*", "class:vendored-ethash-sealer-loop-idle",
